@@ -277,6 +277,12 @@ fn main() {
                     "tree",
                 ),
                 (
+                    "aggregator-slow-client".into(),
+                    Box::new(c16::slow_client_scenario()),
+                    Tiered { quick: lim(5, 4, false, 30), thorough: lim(7, 5, false, 400) },
+                    "tree",
+                ),
+                (
                     "session-snapshot".into(),
                     Box::new(c16::session_scenario(false)),
                     Tiered { quick: lim(4, 3, false, 30), thorough: lim(6, 4, false, 300) },
